@@ -229,6 +229,9 @@ def run(rep, tier):
     errs = [(v, s) for v, s in outs if isinstance(v, tuple) and v[0] == "struct" and v[2] == "Err"]
     bad = [s for v, s in errs if any(e[0] == "call" and e[1].endswith("extend_from_slice") for e in s.effects)]
     rep.ob(rf, "assemble", len(errs) >= 2 and not bad, "Err paths of assemble", expected="return before any byte is appended", found="%d Err paths, %d with appended bytes" % (len(errs), len(bad)))
+    # the bytes the assembler emits are Insn::to_array of the encoded instruction: the encoder lanes (C17/R17.a)
+    import props.c17 as c17
+    c17.run(rep, tier, parts=("enc",))
     rep.trust("rustc front end / typed THIR", "combine parser combinators", "hashbrown::HashMap (insert/get semantics)",
               "asmmodel.reference_table / reference_encode: written from the syntax listing the README defers to")
     rep.assume("numeric literal parsing (decimal / 0x hexadecimal, optional sign) is combine's and core's; panic-freedom is C14")
